@@ -224,13 +224,23 @@ def c03(rec):
     return out
 
 
+_RR = None
+
+
 def c02(rec):
     """C02 (recording half): run the program under the exact interpretations with the rule
-    recorder on; the firings are judged by TLC (Judge.tla) in the parent."""
+    recorder on; the firings are judged by TLC (Judge.tla) in the parent.  One recorder per
+    worker process, so the per-rule cap bounds the volume of the whole run."""
     from funsor.interpretations import sequential
     from funsor.optimizer import apply_optimizer
     from . import recorder
-    with recorder.RuleRecorder() as rr:
+    global _RR
+    if _RR is None:
+        _RR = recorder.RuleRecorder(per_rule_cap=120)
+    rr = _RR
+    n0 = len(rr.events)
+    fired0 = dict(rr.fired)
+    with rr:
         for interp in (None, normalize, lazy, sequential):
             try:
                 r = _build(rec, interp)
@@ -240,6 +250,8 @@ def c02(rec):
                     apply_optimizer(r)
             except Exception:  # noqa
                 pass
-    out = [{"status": "_event", "event": e} for e in rr.events]
-    out.append({"status": "_stats", "fired": dict(rr.fired), "skipped": dict(rr.skipped)})
+    out = [{"status": "_event", "event": e} for e in rr.events[n0:]]
+    del rr.events[n0:]
+    out.append({"status": "_stats", "fired": {k: n - fired0.get(k, 0) for k, n in rr.fired.items() if n != fired0.get(k, 0)},
+                "skipped": {}})
     return out
